@@ -18,6 +18,12 @@ def items(tier):
         for api in APIS2 + (APIS_T if tier != "quick" else []):
             n = -1 if api.startswith("All") else 99
             out.append(mk("C04", p, api, 2, a, n=n, strategy=strat, extra="1" if api.startswith("Append") else ""))
+        if "e" in tags:
+            # patterns that can match the empty string: every enumeration API also at L=3
+            # (an empty match next to a non-empty one and a multi-byte code point need 3 bytes)
+            for api in APIS2 + ["CountString", "AllStringIndex"]:
+                n = -1 if api.startswith("All") else 99
+                out.append(mk("C04", p, api, 3, a, n=n, strategy=strat, extra="1" if api.startswith("Append") else ""))
         out.append(mk("C04", p, "AllIndexBreak", 3, a, n=1, strategy=strat))
         out.append(mk("C04", p, "AppendAllIndex", 2, a, n=-1, strategy=strat, extra="0"))
     return out
